@@ -7,11 +7,13 @@ import (
 	"runtime"
 	"strings"
 	"sync"
+	"sync/atomic"
 	"time"
 
 	"golang.org/x/mod/sumdb"
 
 	"verif/harness/mon"
+	"verif/harness/ref/refmerkle"
 	"verif/harness/world"
 )
 
@@ -101,6 +103,9 @@ func runC13(c *mon.Ctx) {
 	if c.Batch == 0 {
 		c13KnownUnreconciled(c, key)
 	}
+	for i := 0; i < c.Share(c.Scale(480, 12000)); i++ {
+		c13Growing(c, key, i)
+	}
 	for _, t := range triples {
 		for _, h := range hs {
 			mine := c.Mine(item)
@@ -120,6 +125,9 @@ func runC13(c *mon.Ctx) {
 			if t.a > t.p && t.b > t.p {
 				for _, pol := range []string{"random", "cas-conflict"} {
 					c13Concurrent(c, A, B, t.p, t.a, t.b, h, pol)
+				}
+				for _, pol := range []string{"random", "install-race"} {
+					c13OneClient(c, A, B, t.p, t.a, t.b, h, pol)
 				}
 			}
 		}
@@ -559,4 +567,351 @@ func c13KnownUnreconciled(c *mon.Ctx, key *world.Key) {
 	c.Eval(1)
 	c.Finding(id, still, map[string]any{"init_err": fmt.Sprint(e0), "client2_B": fmt.Sprint(e1), "client1_A_first": fmt.Sprint(e2), "client1_A_second": fmt.Sprint(e3),
 		"lines": l3, "config_history_len": len(w.ConfigHistory), "trace_tail": w.TraceTail(30)})
+}
+
+// c13OneClient: ONE long-lived client, two goroutines; the forking server shows branch A to one
+// goroutine and branch B to the other. Under "install-race" the goroutine holding the larger head is
+// stopped between its consistency check and its install until the other goroutine has installed its
+// (smaller, inconsistent) head; it must then notice that the head it checked against is gone.
+func c13OneClient(c *mon.Ctx, A, B *world.Log, p, a, b, h int, policy string) {
+	caseID := fmt.Sprintf("one:p%d:a%d:b%d:h%d:%s", p, a, b, h, policy)
+	if !c.Want(caseID) {
+		return
+	}
+	// the goroutine with the larger tree is the one that is held; with equal sizes neither head "looks new"
+	big, small, nBig, nSmall := A, B, a, b
+	if b > a {
+		big, small, nBig, nSmall = B, A, b, a
+	}
+	idBig, idSmall := nBig-1, nSmall-1
+	if idBig == idSmall {
+		idSmall = p // another record exclusive to the smaller branch, under a different file name
+		if idSmall == idBig {
+			return
+		}
+	}
+	c.WAL(caseID, nil)
+	r := c.SubRng(caseID)
+	info := map[string]any{"p": p, "a": a, "b": b, "h": h, "policy": policy, "one_client": true}
+	w := world.New(c01Name, A.Key, A, B)
+	servBig, servSmall := world.ServeLog(big, func() int { return nBig }), world.ServeLog(small, func() int { return nSmall })
+	var gmu sync.Mutex
+	branchOf := map[int64]int{} // gid -> 0 big, 1 small; tile goroutines inherit via the request in flight
+	var curBig, curSmall int64
+	w.Remote = func(cl int, path string) ([]byte, error) {
+		// lookups are dispatched by the goroutine that asked; tile requests are answered from whichever
+		// branch has that tile content requested first (the forking server cannot tell either)
+		g := world.Gid()
+		gmu.Lock()
+		br, ok := branchOf[g]
+		gmu.Unlock()
+		if strings.HasPrefix(path, "/lookup/") && ok && br == 1 {
+			return servSmall(cl, path)
+		}
+		if strings.HasPrefix(path, "/lookup/") {
+			return servBig(cl, path)
+		}
+		// tiles: a partial tile's width tells which tree it belongs to; full tiles with equal content are
+		// the same on both; otherwise answer from the branch whose lookup is in flight right now
+		dB, eB := servBig(cl, path)
+		dS, eS := servSmall(cl, path)
+		natural := func(n int) bool {
+			t, ok := refmerkle.ParseTilePath(strings.TrimPrefix(path, "/"))
+			if !ok {
+				return false
+			}
+			rest := int64(n)>>uint(t.H*t.L) - t.N<<uint(t.H)
+			if rest > 1<<uint(t.H) {
+				rest = 1 << uint(t.H)
+			}
+			return int64(t.W) == rest
+		}
+		switch {
+		case eB != nil && eS != nil:
+			return nil, eB
+		case eS != nil:
+			return dB, nil
+		case eB != nil:
+			return dS, nil
+		case bytes.Equal(dB, dS):
+			return dB, nil
+		case natural(nBig) && !natural(nSmall):
+			return dB, nil
+		case natural(nSmall) && !natural(nBig):
+			return dS, nil
+		case atomic.LoadInt64(&curSmall) > 0 && atomic.LoadInt64(&curBig) == 0:
+			return dS, nil
+		}
+		return dB, nil
+	}
+	grng := rand.New(rand.NewPCG(r.Uint64(), r.Uint64()))
+	heldArrived := make(chan struct{})
+	var arrivedOnce, relOnce sync.Once
+	release := make(chan struct{})
+	var bigGid int64
+	forced := false
+	w.Gate = func(ev world.Event) {
+		switch policy {
+		case "random":
+			gmu.Lock()
+			k := grng.IntN(8)
+			gmu.Unlock()
+			if k < 3 {
+				runtime.Gosched()
+			} else if k == 3 {
+				time.Sleep(time.Duration(40+k*20) * time.Microsecond)
+			}
+		case "install-race":
+			if ev.Op == "Yield" && ev.Arg == "merge:before-install" && ev.Gid == atomic.LoadInt64(&bigGid) {
+				arrivedOnce.Do(func() { close(heldArrived) })
+				select {
+				case <-release:
+					gmu.Lock()
+					forced = true
+					gmu.Unlock()
+				case <-time.After(2 * time.Second):
+				}
+			}
+		}
+	}
+	world.Activate(w)
+	defer world.Deactivate()
+	cl := sumdb.NewClient(w.Client(1))
+	cl.SetTileHeight(h)
+	w.Register(cl, 1)
+	// warm-up on a common record (if there is one) so that the client holds the common head
+	if p > 0 {
+		gmu.Lock()
+		branchOf[world.Gid()] = 0
+		gmu.Unlock()
+		w.Bind(1)
+		saveBig := nBig
+		_ = saveBig
+		wsrv := world.ServeLog(big, func() int { return p })
+		old := w.Remote
+		w.Remote = func(c2 int, path string) ([]byte, error) { return wsrv(c2, path) }
+		if _, err := cl.Lookup(big.Mods[0].Path, big.Mods[0].Vers); err != nil {
+			c.Violation("honest-lookup-failed", caseID, map[string]any{"stage": "warm-up", "err": err.Error()})
+			return
+		}
+		w.Remote = old
+	}
+	type res struct {
+		which string
+		path  string
+		vers  string
+		lines []string
+		err   error
+	}
+	var mu sync.Mutex
+	var results []res
+	var wg sync.WaitGroup
+	wg.Add(2)
+	go func() {
+		defer wg.Done()
+		g := world.Gid()
+		atomic.StoreInt64(&bigGid, g)
+		gmu.Lock()
+		branchOf[g] = 0
+		gmu.Unlock()
+		w.Bind(1)
+		atomic.AddInt64(&curBig, 1)
+		lines, err := cl.Lookup(big.Mods[idBig].Path, big.Mods[idBig].Vers)
+		atomic.AddInt64(&curBig, -1)
+		mu.Lock()
+		results = append(results, res{"big", big.Mods[idBig].Path, big.Mods[idBig].Vers, lines, err})
+		mu.Unlock()
+	}()
+	go func() {
+		defer wg.Done()
+		g := world.Gid()
+		gmu.Lock()
+		branchOf[g] = 1
+		gmu.Unlock()
+		w.Bind(1)
+		if policy == "install-race" {
+			select {
+			case <-heldArrived:
+			case <-time.After(2 * time.Second):
+			}
+		}
+		atomic.AddInt64(&curSmall, 1)
+		if policy == "install-race" {
+			// release the held goroutine as soon as this one has installed its head in memory (it may or
+			// may not have flushed the configuration by then: both orders occur)
+			go func() {
+				for i := 0; i < 20000; i++ {
+					for _, n := range w.Installs(1) {
+						if n == int64(nSmall) {
+							relOnce.Do(func() { close(release) })
+							return
+						}
+					}
+					time.Sleep(100 * time.Microsecond)
+				}
+			}()
+		}
+		lines, err := cl.Lookup(small.Mods[idSmall].Path, small.Mods[idSmall].Vers)
+		atomic.AddInt64(&curSmall, -1)
+		mu.Lock()
+		results = append(results, res{"small", small.Mods[idSmall].Path, small.Mods[idSmall].Vers, lines, err})
+		mu.Unlock()
+		relOnce.Do(func() { close(release) })
+	}()
+	wg.Wait()
+	relOnce.Do(func() { close(release) })
+	c.Eval(len(results))
+	used := make([]bool, 2)
+	for _, rs := range results {
+		if rs.err != nil {
+			if strings.Contains(rs.err.Error(), sumdb.ErrSecurity.Error()) {
+				c.Class("one-client:security-error")
+			}
+			continue
+		}
+		del := w.Delivered(1, w.Name+"/lookup/"+rs.path+"@"+rs.vers)
+		bi, rid, ok := w.AuthenticLookup(del)
+		if !ok {
+			c.Violation("concurrent-lookup-succeeded-on-unauthentic-response", caseID, map[string]any{"path": rs.path, "delivered": string(del)})
+			continue
+		}
+		_, _, rest, _ := world.ParseLookup(del)
+		on, _, _ := c13Branches(w, rest)
+		if !(on[0] && on[1]) {
+			if on[0] {
+				used[0] = true
+			}
+			if on[1] {
+				used[1] = true
+			}
+		}
+		if rid >= p {
+			used[bi] = true
+		}
+	}
+	if used[0] && used[1] {
+		var rr []string
+		for _, rs := range results {
+			rr = append(rr, fmt.Sprintf("%s %s: err=%v", rs.which, rs.path, rs.err))
+		}
+		d := map[string]any{"results": rr, "installs": w.Installs(1), "trace_tail": w.TraceTail(40)}
+		for k, v := range info {
+			d[k] = v
+		}
+		c.Violation("both-branches-accepted-by-one-client", caseID, d)
+	}
+	c13Drain(c, caseID, w, info)
+	gmu.Lock()
+	f := forced
+	gmu.Unlock()
+	c.Class("one-client:" + policy)
+	if policy == "install-race" && f {
+		c.Class("one-client:install-race-forced")
+		tr, _ := w.Snapshot()
+		for _, e := range tr {
+			if e.Op == "Yield" && e.Arg == "merge:retry" {
+				c.Class("one-client:install-race-retry-observed")
+				break
+			}
+		}
+	}
+}
+
+// c13Growing: an honest log that grows with every lookup, several clients and goroutines sharing one
+// config store under schedule noise. The stored head must move forward only (world's compare-and-swap
+// monitor: every successful write extends the previous head on the same branch and never shrinks).
+func c13Growing(c *mon.Ctx, key *world.Key, i int) {
+	caseID := fmt.Sprintf("growing:%d", i)
+	r := c.SubRng(caseID)
+	if !c.Want(caseID) {
+		return
+	}
+	c.WAL(caseID, nil)
+	const N = 24
+	lg := world.NewLog("A", N, N, key)
+	w := world.New(c01Name, key, lg)
+	var size atomic.Int64
+	size.Store(int64(1 + r.IntN(3)))
+	serve := world.ServeLog(lg, func() int { return int(size.Load()) })
+	w.Remote = func(cl int, path string) ([]byte, error) {
+		if strings.HasPrefix(path, "/lookup/") {
+			// the log grows underneath the clients: each lookup is answered from a larger tree
+			for {
+				cur := size.Load()
+				if cur >= N || size.CompareAndSwap(cur, cur+1) {
+					break
+				}
+			}
+			// make sure the requested record is inside the served tree
+			mv := strings.TrimPrefix(path, "/lookup/")
+			if id := lg.Find(mv[:strings.LastIndex(mv, "@")], mv[strings.LastIndex(mv, "@")+1:], N); id >= 0 {
+				for {
+					cur := size.Load()
+					if cur > int64(id) || size.CompareAndSwap(cur, int64(id)+1) {
+						break
+					}
+				}
+			}
+		}
+		return serve(cl, path)
+	}
+	var gmu sync.Mutex
+	grng := rand.New(rand.NewPCG(r.Uint64(), r.Uint64()))
+	w.Gate = func(ev world.Event) {
+		gmu.Lock()
+		k := grng.IntN(10)
+		gmu.Unlock()
+		switch {
+		case k < 3:
+			runtime.Gosched()
+		case k == 3:
+			runtime.Gosched()
+			runtime.Gosched()
+		case k == 4:
+			time.Sleep(time.Duration(30+k*25) * time.Microsecond)
+		}
+	}
+	world.Activate(w)
+	defer world.Deactivate()
+	K := 1 + r.IntN(3)
+	G := 2 + r.IntN(3)
+	h := []int{1, 2, 3, 8}[r.IntN(4)]
+	var wg sync.WaitGroup
+	var failed atomic.Int64
+	var firstErr atomic.Value
+	for k := 0; k < K; k++ {
+		cl := sumdb.NewClient(w.Client(k + 1))
+		cl.SetTileHeight(h)
+		w.Register(cl, k+1)
+		for g := 0; g < G; g++ {
+			ids := []int{r.IntN(N), r.IntN(N), r.IntN(N)}
+			wg.Add(1)
+			go func(k int) {
+				defer wg.Done()
+				w.Bind(k + 1)
+				for _, id := range ids {
+					if _, err := cl.Lookup(lg.Mods[id].Path, lg.Mods[id].Vers); err != nil {
+						failed.Add(1)
+						firstErr.CompareAndSwap(nil, err.Error())
+					}
+				}
+			}(k)
+		}
+	}
+	wg.Wait()
+	c.Eval(K * G * 3)
+	info := map[string]any{"clients": K, "goroutines": G, "h": h}
+	if failed.Load() > 0 {
+		c.Violation("honest-growing-log-lookup-failed", caseID, map[string]any{"failed": failed.Load(), "first_error": firstErr.Load(), "info": info, "trace_tail": w.TraceTail(30)})
+	}
+	c13Drain(c, caseID, w, info)
+	c.Class(fmt.Sprintf("growing:clients=%d", K))
+	c.Count("growing:config-writes", len(w.ConfigHistory))
+	tr, _ := w.Snapshot()
+	for _, e := range tr {
+		if e.Op == "WriteConfig" && e.Res == "conflict" {
+			c.Class("growing:write-conflict-observed")
+			break
+		}
+	}
 }
